@@ -65,9 +65,13 @@ fn make_object(ctx: &mut Ctx, rng: &mut Rng) -> Option<(ObjectFile, Json, &'stat
         // a linked object
         let n = 2 + rng.usize(3);
         let files = gen_link_set(rng, n, false);
-        let debug = rng.chance(3, 4);
+        // all files with debug symbols, none, or mixed per file (a file without them keeps its labels only if it declares externals)
+        let mode = rng.below(4);
+        let flags: Vec<bool> = files.iter().map(|_| match mode { 0 | 1 => true, 2 => false, _ => rng.bool() }).collect();
+        let debug = format!("{flags:?}");
+        if mode == 3 && flags.iter().any(|x| *x) && flags.iter().any(|x| !*x) { ctx.count("objects.linked-from-mixed-debug-flags"); }
         let mut objs = vec![];
-        for f in &files { match crate::asmutil::asm(&f.r.text, debug) { Ok(Ok(o)) => objs.push(o), _ => return None } }
+        for (f, d) in files.iter().zip(&flags) { match crate::asmutil::asm(&f.r.text, *d) { Ok(Ok(o)) => objs.push(o), _ => return None } }
         let trees = all_trees(n);
         let t = rng.pick(&trees).clone();
         let Ok(o) = eval_tree(&t, &objs) else { ctx.count("link-failed"); return None };
@@ -157,6 +161,6 @@ fn run18(ctx: &mut Ctx) {
 
 fn guard(m: &Merged, _t: Tier) -> Vec<String> {
     let mut out = vec![];
-    for k in ["roundtrip.linked", "roundtrip.assembled-debug", "roundtrip.assembled-nodebug", "objects.with-relocations", "objects.with-external-decl", "objects.multi-block", "sources.crlf", "sources.non-ascii", "sources.backslash", "sources.quote", "objects.source-over-64KiB-or-65535-lines", "objects.very-large-block-or-line-run"] { need(m, &mut out, k, 20); }
+    for k in ["roundtrip.linked", "roundtrip.assembled-debug", "roundtrip.assembled-nodebug", "objects.with-relocations", "objects.with-external-decl", "objects.multi-block", "sources.crlf", "sources.non-ascii", "sources.backslash", "sources.quote", "objects.source-over-64KiB-or-65535-lines", "objects.very-large-block-or-line-run", "objects.linked-from-mixed-debug-flags"] { need(m, &mut out, k, 20); }
     out
 }
